@@ -5,6 +5,8 @@ use super::{ArenaDoc, Context, PrettyPrinter};
 
 impl<'a> PrettyPrinter<'a> {
     pub(super) fn convert_comment(&'a self, _ctx: Context, node: &'a SyntaxNode) -> ArenaDoc<'a> {
+        #[cfg(typstyle_verif)]
+        crate::verif::point("convert:comment");
         comment(&self.arena, node)
     }
 }
